@@ -393,6 +393,7 @@ struct Gen {
 	void setup_creds(JV &hdr) {
 		creds = true;
 		int ng = 1 + (int)r.below(r.chance(0.2) ? 32 : 6);
+		if (r.chance(0.06)) ng = 32;   // the 32-group limit: the last group needs bit 31 of the mask
 		for (int i = 0; i < ng; i++) groups.push_back("g" + std::to_string(i));
 		int nu = 1 + (int)r.below(5);
 		JV users = JV::obj();
@@ -403,7 +404,13 @@ struct Gen {
 			u.set("password", JV::str(pw)); user_pw[name] = pw; user_names.push_back(name);
 			static const char *hs[] = {"des", "des", "des", "md5", "md5", "sha256", "sha512"};
 			u.set("hash", JV::str(hs[r.below(r.chance(0.85) ? 5 : 7)]));
-			for (const char *k : {"fetchGroups", "setGroups", "callGroups"}) { if (r.chance(0.15)) { u.put("sparse", JV::boolean(true)); continue; } /* a user may lack a kind of right altogether */ JV a = JV::arr(); int n = (int)r.below(4); for (int j = 0; j < n; j++) a.push(JV::str(groups[r.below(groups.size())])); if (r.chance(0.1)) a.push(JV::str(groups.back())); u.set(k, a); for (auto &x : a.a) user_rights[name][k].push_back(x.s); if (a.a.empty()) user_rights[name][k]; }
+			for (const char *k : {"fetchGroups", "setGroups", "callGroups"}) { if (r.chance(0.15)) { u.put("sparse", JV::boolean(true)); continue; } /* a user may lack a kind of right altogether */ JV a = JV::arr(); int n = (int)r.below(4); for (int j = 0; j < n; j++) a.push(JV::str(groups[r.below(groups.size())])); if (r.chance(groups.size() == 32 ? 0.5 : 0.1)) a.push(JV::str(groups.back())); u.set(k, a); for (auto &x : a.a) user_rights[name][k].push_back(x.s); if (a.a.empty()) user_rights[name][k]; }
+			if (i == 0 && groups.size() == 32 && r.chance(0.7)) {
+				// the first user names every group: the file then defines 32 groups and the last one needs bit 31
+				JV all = JV::arr(); for (auto &gn : groups) all.push(JV::str(gn)); u.put("fetchGroups", all);
+				JV last = JV::arr(); last.push(JV::str(groups[31])); last.push(JV::str(groups[30])); u.put("setGroups", last); u.put("callGroups", last);
+				user_rights[name]["fetchGroups"] = groups; user_rights[name]["setGroups"] = {groups[31], groups[30]}; user_rights[name]["callGroups"] = {groups[31], groups[30]};
+			}
 			if (r.chance(0.2)) u.set("admin", JV::boolean(true));
 			if (r.chance(0.2)) u.set("readonly", JV::boolean(true));
 			users.set(name, u);
